@@ -20,6 +20,10 @@ subset filled with the derived values gives the same contour wherever the values
 The same oracle is applied to the parameters the constructor had already resolved when it refuses an input (the generic
 constructor validates what it computed and raises: inconsistent derived values then show up as a rejection, not as a groove),
 to a sibling of every groove (same values, another pad angle) and to a re-build from the same values.
+Fourth wave: the values a constructor stores on the object and the public properties handing them out are translated too
+(`driver/translate/c04_stored.py` -> Gen/C04Stored.lean, theorems in PyrollProps/C04Stored.lean, K on every construction);
+the oracle has value clauses `derived-value:<Class>:<name>` for every derived dimension the object reports and `face-end` for
+the end point of the roll face; a pass-through stream gives the generic constructor's optional arguments explicitly.
 """
 import contextlib
 import functools
@@ -27,15 +31,17 @@ import inspect
 import math
 
 from ..translate import c04_solvers as T_solvers
+from ..translate import c04_stored as T_stored
 from ..translate import c04_validator as T_valid
 from ..translate import groove as T_groove
 from ..translate import pyexpr
 from .. import stub
 
 ID = "C04"
-LEAN_MODULES = ["PyrollProps.C04", "PyrollProps.C04Boundary"]
+LEAN_MODULES = ["PyrollProps.C04", "PyrollProps.C04Boundary", "PyrollProps.C04Stored"]
 MODEL = "c04"
-MODEL_MODULES = ["PyrollModel.Gen.C04", "PyrollModel.Gen.C04Groove", "PyrollModel.Gen.C04Valid", "PyrollModel.EvalDriver"]
+MODEL_MODULES = ["PyrollModel.Gen.C04", "PyrollModel.Gen.C04Groove", "PyrollModel.Gen.C04Valid", "PyrollModel.Gen.C04Stored",
+                 "PyrollModel.EvalDriver"]
 RULE = ("for each solver-backed groove class (20 incl. the Upset/Square subclasses and the generic class) and each admissible "
         "defining subset: a *feasible* geometry is drawn forwards (angles, radii, flank length, pad angle in {0,30,45,random}, "
         "scale log-uniform over 5 decades), the over-determined parameters are computed from it and the subset is handed to "
@@ -43,7 +49,11 @@ RULE = ("for each solver-backed groove class (20 incl. the Upset/Square subclass
         "distinct by class, subset and rounded parameters. Every constructed groove A is re-built from every other admissible "
         "subset B filled with the values measured on A, then built with the same values under another pad angle (sibling) "
         "and finally once more from A's own values (must give A's contour again). A draw the constructor refuses AFTER "
-        "it has resolved the parameters is checked on the refused object.")
+        "it has resolved the parameters is checked on the refused object. Boundary stream: every class x admissible subset "
+        "with parameters exactly on the end of their range. Pass-through stream: every class handing **kwargs to the generic "
+        "constructor x pad angle 0/30/45 x the generic constructor's optional non-geometric arguments (pad, rel_pad, "
+        "classifiers; read from its signature) given explicitly. Every derived dimension the object reports (tip_angle, "
+        "tip_depth, ground_width, width, end of the roll face) is recomputed from the traced geometry.")
 ASSUMPTIONS = [
     "IEEE rounding: theorems are over the reals; float comparisons use rtol 1e-9 (closed forms) and tolerances derived "
     "from the iteration precision of the scipy root finders (xtol 1.5e-8 for root/fixed_point, 2e-12 for root_scalar)",
@@ -55,8 +65,9 @@ ASSUMPTIONS = [
     "the step test is two-sided); test_contour_points / test_complexity_of_contour_line work on sampled arrays and are only "
     "exercised: a refusal of a consistent resolution is counted (rejected-consistent), not reported",
 ]
-TRUSTED_EXTRA = ["translator driver/translate/c04_solvers.py + groove.py (symbolic execution of the solver module per "
-                 "None-pattern); mitigated by the per-definition differential run"]
+TRUSTED_EXTRA = ["translator driver/translate/c04_solvers.py + c04_stored.py + groove.py (symbolic execution of the solver "
+                 "module and of the constructors per None-pattern, incl. the values stored on the object and the getters "
+                 "handing them out); mitigated by the per-definition differential run"]
 
 DEG = math.pi / 180
 
@@ -212,6 +223,62 @@ def _edge_pad(edge, p, fa_deg):
         if e.startswith("pad="):
             return min(float(e[4:]), 170 - fa_deg)
     return p
+
+
+# ---------------------------------------------------------------------------------------------------------
+# pass-through stream: optional arguments of the generic constructor that usually keep their default
+# ---------------------------------------------------------------------------------------------------------
+# `GenericElongationGroove.__init__` has optional keyword arguments that no solver-backed class sets itself and that every
+# class taking `**kwargs` hands through unchanged (`pad`, `rel_pad`, `classifiers` - read from the signature, see
+# `passthrough_params`).  They do not enter the resolution of the over-determined parameters, so the statement must hold
+# unchanged when they are given explicitly: the contour is the same whichever defining subset is given, the roll face runs
+# from junction 1 along the line through (usable_width/2, 0) inclined by the pad angle and joins the r1 arc tangentially,
+# given values are reproduced.  Tests and examples leave them at their defaults (or give them with pad angle 0), so code
+# that treats an explicitly given value differently from the default is exercised only by a stream that gives them, for
+# every class x pad angle 0 / 30 / 45.
+# the arguments through which the groove geometry itself is given / resolved (handed over by the constructors, `plumb_*`)
+GEOMETRIC_ARGS = frozenset(["r1", "r2", "r3", "r4", "alpha3", "alpha4", "indent", "even_ground_width", "usable_width",
+                            "ground_width", "flank_angle", "depth", "pad_angle"])
+
+
+@functools.lru_cache(maxsize=None)
+def passthrough_params():
+    """{name: default} of the optional parameters of the generic constructor that are not geometric arguments"""
+    from pyroll.core.grooves import GenericElongationGroove
+    out = {}
+    for n, prm in inspect.signature(GenericElongationGroove.__init__).parameters.items():
+        if n == "self" or prm.default is inspect.Parameter.empty or n in GEOMETRIC_ARGS \
+                or prm.kind in (inspect.Parameter.VAR_POSITIONAL, inspect.Parameter.VAR_KEYWORD):
+            continue
+        out[n] = prm.default
+    return out
+
+
+def _passthrough_names():
+    return frozenset(passthrough_params())
+
+
+def accepts_passthrough(cname):
+    """the class hands unknown keyword arguments on to the generic constructor (`**kwargs`), or is the generic class"""
+    if cname == "GenericElongationGroove":
+        return True
+    if cname in DIRECT:
+        return False
+    return any(prm.kind is inspect.Parameter.VAR_KEYWORD
+               for prm in inspect.signature(_cls(cname).__init__).parameters.values())
+
+
+def passthrough_value(rng, name, default, scale):
+    """an explicit, non-default value for the pass-through parameter `name`; None when its kind is unknown to the harness.
+    A number named `rel_*` is a ratio to the usable width, any other number an absolute measure of the size of the groove;
+    a sequence is a sequence of (classifier) strings."""
+    if isinstance(default, bool):
+        return None
+    if isinstance(default, (int, float)):
+        return rng.uniform(0.05, 0.6) if name.startswith("rel_") else scale * rng.uniform(0.05, 0.5)
+    if isinstance(default, (tuple, list, set, frozenset)):
+        return ["c04_probe", "c04_" + name]
+    return None
 
 
 def draw(rng, cname, edge=frozenset()):
@@ -419,6 +486,18 @@ def draw(rng, cname, edge=frozenset()):
     raise KeyError(cname)
 
 
+def _canon_items(kwargs):
+    """constructor arguments in a canonical, hashable form (numbers rounded to 6 digits, anything else - a sequence of
+    classifiers - as text)"""
+    return sorted((k, float("%.6g" % v) if isinstance(v, (int, float)) else str(v)) for k, v in kwargs.items())
+
+
+def _pad_of(kwargs, g):
+    """the length of the face beyond junction 1 as the generic constructor takes it from its arguments: the absolute `pad`
+    when one is given (and non-zero), else `rel_pad` (given or the configured default) times the usable width"""
+    return kwargs.get("pad") or g.usable_width * kwargs.get("rel_pad", _rel_pad())
+
+
 def _ribbed_r2(rib_distance, rib_width, rib_angle, base_body_height, nominal_outer_diameter):
     """the circular-segment radius of equal mean area (from the docstring of EquivalentRibbedGroove: segment of height
     h_eq over a chord c has radius (4 h^2 + c^2) / (8 h))"""
@@ -607,18 +686,21 @@ def check_groove(ctx, cname, subset, kwargs, g, scale, iterative, given, observe
         ctx.count("observed:negative-resolved-angle:" + cname)
         observe_only = True
 
-    def bad(key, what):
+    def bad(key, what, name=None):
+        """`name`: the reported dimension a value clause is about (keys `derived-value:<Class>:<name>`)"""
         nonlocal ok
         ok = False
+        full = key + ":" + cname + ("" if name is None else ":" + name)
         if observe_only:
+            key = key if name is None else key + ":" + name
             ctx.count(f"observed:{key}:{tag}")
             ctx.notes.setdefault("observed", {}).setdefault(f"{key}:{tag}", {"what": what, "replay": replay})
         elif rejected is not None:
-            ctx.violation("rejected-inconsistent:" + key + ":" + cname,
+            ctx.violation("rejected-inconsistent:" + full,
                           f"{tag}: the parameters derived for this input are geometrically inconsistent - {what} - and the "
                           f"constructor then fails with {rejected} instead of resolving the groove", replay)
         else:
-            ctx.violation(key + ":" + cname, f"{tag}: {what}", replay)
+            ctx.violation(full, f"{tag}: {what}", replay)
 
     if abs(psi - g.flank_angle) > rt:
         bad("heading-at-flank", f"turning -alpha4+alpha3+alpha2 = {psi} differs from the flank angle {g.flank_angle}")
@@ -658,6 +740,31 @@ def check_groove(ctx, cname, subset, kwargs, g, scale, iterative, given, observe
         bad("face-step", f"junction 1 is {c1} off the face line through (usable_width/2, 0)")
     if abs(g.alpha1 - (g.flank_angle + pa)) > 1e-12:
         bad("alpha1", "alpha1 != flank_angle + pad_angle")
+    # ... and the roll face runs on from junction 1 along the same line (inclined by the pad angle) up to its end point
+    # (z0, y0), the outermost vertex of the contour: on the face line through (usable_width/2, 0), not before junction 1,
+    # hence joining the r1 arc tangentially in junction 1 - whether the padding is the default, relative or absolute
+    ftol = tol + 1e-12 * abs(g.z0)
+    c0 = (g.z0 - g.z2) * math.sin(pa) - (g.y0 - g.y2) * math.cos(pa)
+    a0 = (g.z0 - g.z1) * math.cos(pa) + (g.y0 - g.y1) * math.sin(pa)
+    if abs(c0) > ftol or a0 < -ftol:
+        kink = math.degrees(math.atan2((g.y0 - g.y1), (g.z0 - g.z1)) - pa) if math.hypot(g.z0 - g.z1, g.y0 - g.y1) > 0 else 0.0
+        back = g.z0 - g.y0 / math.tan(pa) if math.tan(pa) != 0 else float("nan")
+        bad("face-end", f"the end of the roll face ({g.z0}, {g.y0}) lies {c0} off the face line through (usable_width/2, 0) "
+            f"inclined by the pad angle ({a0} beyond junction 1 along it): the face leaves junction 1 with a kink of {kink} deg, "
+            f"prolonged back to y=0 it gives a usable width of {2 * back} instead of {g.usable_width}")
+    import numpy as _np
+    last = _np.asarray(g.contour_points)[-1]
+    if abs(float(last[0]) - g.z0) > ftol or abs(float(last[1]) - g.y0) > ftol:
+        bad("face-end", f"the outermost contour vertex ({last[0]}, {last[1]}) is not the end of the roll face ({g.z0}, {g.y0})")
+    if kwargs.get("classifiers") is not None:
+        try:
+            have_c = set(g.classifiers)
+        except AttributeError:
+            have_c = None
+        if have_c is not None and not set(kwargs["classifiers"]) <= have_c:
+            bad("echo-classifiers", f"given classifiers {list(kwargs['classifiers'])!r}, the groove reports {sorted(have_c)!r}")
+    # every derived dimension the object REPORTS besides the ones the tracer has just used
+    _reported_values(cname, g, pts, psi, rt, tol, scale, bad)
     # contour vertices lie on the traced pieces (right half, between junction 1 and the centre)
     _vertices_on_path(g, pts, psi, tol, bad)
     # echo
@@ -674,6 +781,65 @@ def check_groove(ctx, cname, subset, kwargs, g, scale, iterative, given, observe
 
 
 _SOLVED_ECHO = {"flank_width", "flank_height", "flank_length"}
+
+TIP_CLASSES = ("DiamondGroove", "SquareGroove")
+
+
+def _reported_values(cname, g, pts, psi, rt, tol, scale, bad):
+    """Value clauses for the derived dimensions a groove reports that the tracer does not itself start from (it starts from
+    the radii, the resolved angles, `depth`, `indent`, `even_ground_width` and checks `usable_width`, `flank_angle`, the
+    junctions against them).  "Whatever admissible subset is supplied, the derived ones are geometrically consistent": each
+    of these is defined by the traced geometry, independently of which subset was given, in the unit in which the object
+    hands its angles out (radians, like `flank_angle` / `pad_angle` / `alpha1..4`).
+
+    * `ground_width` ("width of flank/ground-line intersections", generic constructor: "give any three of usable_width,
+      ground_width, flank_angle and depth"): the flank line through (usable_width/2, 0) falling with tan(flank_angle)
+      reaches `depth` at ground_width/2.
+    * `width`: the face fillet r1 turns by flank angle + pad angle, its tangent length is r1 tan(turn/2); the groove is as
+      wide as the two points where the fillets run out into the faces are apart.
+    * `tip_depth`, `tip_angle` (diamond, square: "depth of the intersection of the extrapolated flanks", "angle between the
+      flanks"): the flank traced through junction 4 with the traced heading, prolonged to the axis z = 0, and twice the
+      angle between it and the axis; both together: tan(tip_angle/2) = (usable_width/2) / tip_depth.
+    Tolerances: `rt` / `tol` of `check_groove` (closed forms: 1e-9 / sin^2; solver-backed: solver precision)."""
+    fa, uw, depth = g.flank_angle, g.usable_width, g.depth
+    (_, z4, y4) = pts[-1]
+    gw = getattr(g, "ground_width", None)
+    # the generic constructor treats a depth that `np.isclose` calls zero (absolute 1e-8) as "no groove: both widths equal"
+    if gw is not None and abs(depth) > 1e-7 and math.tan(fa) != 0:
+        want = uw - 2 * depth / math.tan(fa)
+        if not abs(gw - want) <= tol * (1 + 1 / abs(math.tan(fa))):
+            bad("derived-value", f"the groove reports ground_width={gw!r}; the flank through (usable_width/2, 0) reaches the "
+                f"depth at {want / 2} = ground_width/2 for ground_width={want}", name="ground_width")
+    try:
+        width = g.width
+    except AttributeError:
+        width = None
+    if width is not None:
+        want = uw + 2 * g.r1 * math.tan((fa + g.pad_angle) / 2) * math.cos(g.pad_angle)
+        if not abs(width - want) <= tol:
+            bad("derived-value", f"the groove reports width={width!r}; the face fillets run out into the faces {want} apart",
+                name="width")
+    if cname in TIP_CLASSES:
+        td, ta = getattr(g, "tip_depth", None), getattr(g, "tip_angle", None)
+        flagged = False
+        if ta is not None:
+            want = math.pi - 2 * psi
+            if not abs(ta - want) <= rt:
+                flagged = True
+                bad("derived-value", f"the groove reports tip_angle={ta!r} rad; the traced flanks enclose {want} rad "
+                    f"(flank heading {psi} rad below the horizontal on either side)", name="tip_angle")
+        if td is not None:
+            want = y4 + z4 * math.tan(psi)
+            if not abs(td - want) <= tol * (1 + abs(math.tan(psi))):
+                flagged = True
+                bad("derived-value", f"the groove reports tip_depth={td!r}; the flank through junction 4 prolonged to the "
+                    f"groove axis reaches {want}", name="tip_depth")
+        if td is not None and ta is not None and not flagged:
+            # the triangle relation in the reported values alone (tip angle strictly between 0 and pi)
+            lhs = math.tan(ta / 2) * td
+            if not abs(lhs - uw / 2) <= tol * (1 + abs(math.tan(ta / 2))) + rt * abs(td) / max(math.cos(ta / 2) ** 2, 1e-12):
+                bad("derived-value", f"reported tip_angle={ta!r} rad, tip_depth={td!r}, usable_width={uw!r} do not form the tip "
+                    f"triangle: tan(tip_angle/2) * tip_depth = {lhs}, usable_width/2 = {uw / 2}", name="tip_triangle")
 
 
 def _vertices_on_path(g, pts, psi, tol, bad):
@@ -716,7 +882,7 @@ def expected_echo(cname, kwargs, g):
     out = {}
     deg = cname != "GenericElongationGroove"
     for k, v in kwargs.items():
-        if v is None or k in ("pad", "rel_pad"):
+        if v is None or k in _passthrough_names():
             continue
         if k in ("pad_angle", "flank_angle", "tip_angle"):
             out[k] = v * DEG if deg else v
@@ -750,11 +916,12 @@ class _View:
 # correspondence: generated definitions vs the real code
 # ---------------------------------------------------------------------------------------------------------
 class Corr:
-    def __init__(self, ctx, solvers, classes, chain, resolution, contour_fns, tests=()):
+    def __init__(self, ctx, solvers, classes, chain, resolution, contour_fns, tests=(), stored=None):
         self.ctx = ctx
         self.solvers, self.classes = solvers, classes
         self.chain, self.resolution, self.cf = chain, resolution, contour_fns
         self.tests = list(tests)
+        self.stored = stored or {}
         self.lines, self.expect = [], []
 
     def add(self, name, env, want, what, rtol=1e-9, atol=0.0):
@@ -817,7 +984,7 @@ class Corr:
             self.ctx.disagreement(f"{cname}: the model has no returning pattern for {pat} but the implementation constructed",
                                   {"class": cname, "kwargs": kwargs})
             return
-        env = {k: v for k, v in kwargs.items() if v is not None and k not in ("pad", "rel_pad")}
+        env = {k: v for k, v in kwargs.items() if v is not None and k not in _passthrough_names()}
         env.setdefault("pad_angle", 0.0)
         if len(calls) != len(oc.calls):
             self.ctx.disagreement(f"{cname}: {len(calls)} solver call(s), model has {len(oc.calls)}", {"kwargs": kwargs})
@@ -838,6 +1005,45 @@ class Corr:
             if have is not None:
                 self.add(f"{oc.lean_name}.{k}", env, have, "constructor-kwarg", rtol=1e-9, atol=1e-12 * scale)
         self.ctx.count("K:plumbing:" + cname)
+
+    def reported_case(self, cname, kwargs, calls, g, pad, scale):
+        """the generated `reported_<Class>_<k>` (stored expression composed with the getter, over the constructor's own
+        arguments) vs what the finished object hands out under that public name; the generic class's numeric properties
+        (`getters_GenericElongationGroove`, over the chain) vs the object's"""
+        mname = MODEL_CLASS.get(cname, cname)
+        info, entry = self.classes.get(mname), self.stored.get(mname)
+        if info is not None and entry is not None and entry["patterns"]:
+            pat = {o: kwargs.get(o) is None for o in info["optional"]}
+            pt = entry["patterns"].get(T_solvers.pattern_str(info["optional"], pat))
+            if pt is not None:
+                env = {k: v for k, v in kwargs.items() if v is not None and k not in _passthrough_names()}
+                env.setdefault("pad_angle", 0.0)
+                for (_, _, rres) in calls:
+                    for k, v in rres.items():
+                        env["sol." + k] = v
+                for name in pt["reported"]:
+                    have = getattr(g, name, None)
+                    if have is None:
+                        self.ctx.disagreement(f"{cname}: the model has a value for the reported `{name}`, the object reports "
+                                              "None / nothing", {"class": cname, "kwargs": kwargs})
+                        continue
+                    self.add(f"reported_{mname}{pt['suffix']}.{name}", env, have, "reported-value", rtol=1e-9,
+                             atol=1e-12 * scale)
+                for g_name in entry["getters"]:
+                    if g_name not in pt["reported"] and getattr(g, g_name, None) is not None:
+                        self.ctx.disagreement(f"{cname}: the object reports `{g_name}` = {getattr(g, g_name)!r}, the model has the "
+                                              "attribute behind it stored as None in this pattern",
+                                              {"class": cname, "kwargs": kwargs})
+                self.ctx.count("K:reported:" + cname)
+        gg = self.stored.get(T_stored.GENERIC[1], {}).get("getters") or {}
+        if gg:
+            env = self.chain_env(g, pad)
+            for name, _ in self.chain:
+                if hasattr(g, name):
+                    env[name] = getattr(g, name)
+            for name, e in gg.items():
+                self.add(f"getters_{T_stored.GENERIC[1]}.{name}", {k: env[k] for k in set(pyexpr.expr_vars(e)) if k in env},
+                         getattr(g, name), "generic-getter", rtol=1e-12, atol=0.0)
 
     @staticmethod
     def chain_env(g, pad):
@@ -985,7 +1191,7 @@ def rejected_case(ctx, corr, log, cname, subset, kwargs, scale, err, after=None)
         ctx.count("rejected-before-resolution:" + cname)        # the solver itself raised (no root found): nothing derived
         return
     if ctx.model_available and corr is not None:
-        corr.validator_case(obj, kwargs.get("pad") or obj.usable_width * _rel_pad(), scale, "refused")
+        corr.validator_case(obj, _pad_of(kwargs, obj), scale, "refused")
     ok = check_groove(ctx, cname, subset, kwargs, _View(obj), scale, cname in ITERATIVE, expected_echo(cname, kwargs, obj),
                       observe_only=cname in DIRECT, rejected=err, after=after)
     ctx.count(("rejected-consistent:" if ok else "rejected-inconsistent:") + tag)
@@ -1055,7 +1261,7 @@ def run_case(ctx, corr, log, cname, subset, fixed, vals, info, cross=True, corpu
     rng = ctx.rng
     scale = info["scale"]
     kwargs = dict(fixed, **{k: vals[k] for k in subset})
-    canon = [cname, list(subset), sorted((k, float("%.6g" % v)) for k, v in kwargs.items())]
+    canon = [cname, list(subset), _canon_items(kwargs)]
     g, err = construct(cname, kwargs, log)
     tag = cname + ":" + "+".join(subset)
     if edge is not None:
@@ -1088,8 +1294,9 @@ def run_case(ctx, corr, log, cname, subset, fixed, vals, info, cross=True, corpu
         if len(calls) == 1:
             corr.solver_case(calls[0][0], calls[0][1], calls[0][2], oracles, scale)
         corr.plumbing_case(cname, kwargs, calls, g, scale)
-        pad = kwargs.get("pad") or g.usable_width * _rel_pad()
+        pad = _pad_of(kwargs, g)
         corr.chain_case(g, pad, scale, rng)
+        corr.reported_case(cname, kwargs, calls, g, pad, scale)
         corr.validator_case(g, pad, scale, "constructed")
         if cname == "GenericElongationGroove":
             missing = [k for k in ("usable_width", "ground_width", "flank_angle", "depth") if k not in subset][0]
@@ -1130,7 +1337,7 @@ def run_case(ctx, corr, log, cname, subset, fixed, vals, info, cross=True, corpu
         kb = dict(fixed, **{k: dv[k] for k in sb})
         gb, errb = construct(cname, kb, log)
         tagb = tag + "->" + "+".join(sb)
-        canon_b = [cname, "cross", list(sb), sorted((k, float("%.6g" % v)) for k, v in kb.items())]
+        canon_b = [cname, "cross", list(sb), _canon_items(kb)]
         if gb is None:
             ctx.case(canon_b, nontrivial=False)
             ctx.count("cross-rejected:" + cname + ":" + "+".join(sb))
@@ -1148,6 +1355,19 @@ def run_case(ctx, corr, log, cname, subset, fixed, vals, info, cross=True, corpu
         else:
             diff = max(abs(getattr(g, n) - getattr(gb, n)) for n in ("z1", "y1", "z3", "y3", "z4", "y4", "z5", "y5", "z6", "y6"))
             ctx.count("cross:vertex-count-differs")
+        if not iterative:
+            # closed-form families: the values B reports are algebraic functions of the values it was given, and those are
+            # A's reported values - so B must report every derived dimension as A did (same relative limit as the contour)
+            dvb = derived_values(cname, gb)
+            for k, va in dv.items():
+                vb = dvb.get(k)
+                if va is None or vb is None:
+                    continue
+                ref = max(abs(va), abs(vb), 1.0 if "angle" in k else scale)
+                if not abs(va - vb) <= 1e-8 / sfa ** 2 * ref:
+                    ctx.violation("derived-value:" + cname + ":" + k,
+                                  f"{tagb}: re-built from the reported values the groove reports {k}={vb!r}, the groove they "
+                                  f"were taken from reported {va!r}", {"class": cname, "A": kwargs, "B": kb})
         if diff <= lim:
             ctx.count("cross-same:" + cname)
             continue
@@ -1164,7 +1384,7 @@ def run_case(ctx, corr, log, cname, subset, fixed, vals, info, cross=True, corpu
         alt = 0.0 if kwargs["pad_angle"] else rng.choice([30.0, 45.0])
         ks = dict(kwargs, pad_angle=alt * DEG if cname == "GenericElongationGroove" else alt)
         gs, errs = construct(cname, ks, log)
-        canon_s = [cname, "sibling", list(subset), sorted((k, float("%.6g" % v)) for k, v in ks.items())]
+        canon_s = [cname, "sibling", list(subset), _canon_items(ks)]
         if gs is None:
             # not drawn forwards: the values may simply not fit the other face angle
             ctx.case(canon_s, nontrivial=False)
@@ -1237,15 +1457,16 @@ def _extracted(ctx):
         chain, _ = T_groove.extract_chain()
         cf = T_groove.extract_contour_functions(chain_names=[n for n, _ in chain])
         found = (solvers, classes, chain, T_groove.extract_resolution(), cf,
-                 T_valid.extract_plausibility(None, [n for n, _ in chain], cf)[0])
+                 T_valid.extract_plausibility(None, [n for n, _ in chain], cf)[0], T_stored.extract(classes))
     return found
 
 
 def translate(ctx):
     solvers, classes = T_solvers.emit(ctx, ID)
+    stored = T_stored.emit(ctx, ID, classes)
     chain, res, cf = T_groove.emit(ctx, ID)
     tests = T_valid.emit(ctx, ID, chain, cf)
-    ctx.c04 = (solvers, classes, chain, res, cf, tests)
+    ctx.c04 = (solvers, classes, chain, res, cf, tests, stored)
 
 
 def _corr(ctx):
@@ -1283,6 +1504,7 @@ def run(ctx):
                     ctx.disagreement(f"{cname} rejects {n - built} of {n} feasible geometries given as {subset}",
                                      {"class": cname, "subset": list(subset)})
         run_boundary(ctx, corr, log)
+        run_passthrough(ctx, corr, log)
     if ctx.model_available and corr is not None:
         fa_witness_case(ctx)
     if ctx.model_available and corr is not None:
@@ -1330,6 +1552,50 @@ def run_boundary(ctx, corr, log):
                         # the `even_ground_width = 0` case (usable width as reported by the groove -> difference exactly 0).
                         info = {k: v for k, v in info.items() if k != "fa"}
                     run_case(ctx, corr, log, cname, subset, fixed, vals, info, edge=sorted(edge))
+
+
+def run_passthrough(ctx, corr, log):
+    """The pass-through stream (see `passthrough_params`): every class that hands `**kwargs` on to the generic constructor
+    (and the generic class itself) x pad angle exactly 0 / 30 / 45 degrees x each pass-through argument given explicitly on
+    its own, the numeric ones together, and all of them together; the defining subset rotates through the admissible ones.
+    Each case is a feasible interior geometry drawn forwards and goes through the complete `run_case` - oracle, re-build
+    from every other admissible subset (with the same pass-through arguments: "the same contour whichever subset is given"),
+    sibling under the other kind of pad angle, re-build."""
+    rng = ctx.rng
+    params = passthrough_params()
+    names = list(params)
+    numeric = [n for n in names if isinstance(params[n], (int, float)) and not isinstance(params[n], bool)]
+    combos = [(n,) for n in names]
+    if len(numeric) > 1:
+        combos.append(tuple(numeric))
+    if len(names) > 1 and tuple(names) not in combos:
+        combos.append(tuple(names))
+    rounds = ctx.budget(1, 4)
+    k = 0
+    for cname in ALL_CLASSES:
+        if not accepts_passthrough(cname):
+            ctx.count("passthrough-not-accepted:" + cname)
+            continue
+        subsets = subsets_of(cname)
+        for r in range(rounds):
+            for padf in EDGE_PADS:
+                for combo in combos:
+                    subset = subsets[k % len(subsets)]
+                    k += 1
+                    fixed, vals, info = draw(rng, cname, edge=frozenset([padf]))
+                    for n in names:
+                        fixed.pop(n, None)
+                    given = []
+                    for n in combo:
+                        v = passthrough_value(rng, n, params[n], info["scale"])
+                        if v is None:
+                            ctx.count("passthrough-unknown-kind:" + n)
+                            continue
+                        fixed[n] = v
+                        given.append(n)
+                    g = run_case(ctx, corr, log, cname, subset, fixed, vals, info)
+                    ctx.count(("passthrough-constructed:" if g is not None else "passthrough-rejected:")
+                              + "+".join(given) + ":" + padf)
 
 
 def fa_witness_case(ctx):
@@ -1407,7 +1673,9 @@ def replay(ctx, data):
             cname = r["class"]
             opt = [k for s in subsets_of(cname) for k in s]
             subset = tuple(k for k in kw if k in opt)
-            scale = max(abs(v) for k, v in kw.items() if v is not None and "angle" not in k)
+            # the size of the groove: the largest length among the arguments (not angles, ratios, classifier lists)
+            scale = max(abs(v) for k, v in kw.items() if isinstance(v, (int, float)) and "angle" not in k
+                        and not k.startswith("rel_"))
             fixed = {k: v for k, v in kw.items() if k not in subset}
             info = dict(scale=scale)
             if r.get("witness") and kw is r.get("kwargs"):
